@@ -404,7 +404,7 @@ def initial_pool(ctx, rng, n=4):
             cols = list(rows)
         ranks = gen.rand_ranks(rng, d, 3, p_one=0.5)
         kind = 'nonneg' if rng.random() < 0.2 else 'gauss'
-        t = gen.rand_tt(rng, rows, cols, ranks, bool(rng.integers(0, 2)) and kind == 'gauss', kind=kind)
+        t = gen.rand_tt(rng, rows, cols, ranks, gen.rand_cplx(rng) if kind == 'gauss' else False, kind=kind)
         pool.add(t, 'init#%d' % j)
     return pool
 
@@ -513,12 +513,13 @@ def w_pairs(ctx, rng, idx, param):
         ctx.sample({'workload': 'pairs', 'rows': rows, 'ranks': ranks, 'producer': pn, 'consumer': cn, 'history': pool.history})
 
 
+from . import ambient  # noqa: E402
 from . import c06_solvers  # noqa: E402  (solver / integrator / data-driven routines called on pool objects)
 
 WORKLOADS = [
     Workload('histories', w_histories, 400, 20000),
     Workload('pairs', w_pairs, None, None, enum=enum_pairs),
-] + c06_solvers.WORKLOADS
+] + c06_solvers.WORKLOADS + [ambient.WORKLOAD]
 
 REQUIRED = ['C06|pool:non_target_object_unchanged', 'C06|pool:live_object_consistent', 'C06|pool:target_consistent_after_inplace',
             'C06|TT.tensordot:argument_unchanged', 'C06|TT.__add__:argument_unchanged', 'C06|TT.svd:argument_unchanged',
